@@ -24,6 +24,7 @@ let handle (line : string) : string =
   | "root" :: a :: _ -> run_root a
   | "pos" :: a :: _ -> run_pos a
   | "fsm" :: rest -> Fsm_io.run_fsm rest
+  | "mem" :: rest -> Fsm_io.run_mem rest
   | [] -> ""
   | k :: _ -> "unknown-case " ^ k
 
